@@ -10,3 +10,6 @@ const pointsAvailable = true
 func setPointHook(f func(int)) { art.VerifPoint = f }
 
 var pointsInCopy = art.VerifPointCount
+
+// points around statements that touch state shared between trees (see /verif/instrument)
+var sharedPoints = art.VerifSharedPoints
